@@ -144,9 +144,13 @@ void ebpps_sample<T,A>::merge(FwdSample&& other) {
   // and the first case would have ideally triggered. As a result, we must
   // check if the partial item exists before adding to the data_ vector.
 
-  if (c_frac == 0.0 && other_c_frac == 0.0) {
+  // c_ == floor(c_) is meant to catch fractions that add up to 1 within rounding. It also holds when
+  // other_c_frac is too small to register in c_ (c_frac == 0): then nothing fractional remains and the
+  // item that carried it must not be promoted to a full item.
+  const bool integral = (c_ == std::floor(c_));
+  if ((c_frac == 0.0 && other_c_frac == 0.0) || (integral && c_frac + other_c_frac < 0.5)) {
     partial_item_.reset();
-  } else if (c_frac + other_c_frac == 1.0 || c_ == std::floor(c_)) {
+  } else if (c_frac + other_c_frac == 1.0 || integral) {
     if (next_double() <= c_frac) {
       if (partial_item_)
         data_.emplace_back(std::move(*partial_item_));
